@@ -1676,7 +1676,11 @@ def wrap_exceptions(fun):
             # /proc/PID directory may still exist, but the files within
             # it may not, indicating the process is gone, see:
             # https://github.com/giampaolo/psutil/issues/2418
-            if not os.path.exists(f"{self._procfs_path}/{pid}/stat"):
+            # Also, if the missing file is /proc/PID/stat itself the
+            # process is gone, even if the path exists by now (PID
+            # reused in the meantime).
+            stat_path = f"{self._procfs_path}/{pid}/stat"
+            if err.filename == stat_path or not os.path.exists(stat_path):
                 raise NoSuchProcess(pid, name) from err
             raise
 
